@@ -5,5 +5,5 @@ ids=${@:-$(ls)}
 for sid in $ids; do
   prop=$(python3 -c "import json;print(json.load(open('/verif/seeded/$sid/meta.json'))['breaks_property'])")
   echo "=== $sid vs $prop"
-  /verif/tools/trymut.sh /verif/seeded/$sid/patch.diff $prop | grep -E "^(VIOLATION|DONE|rc=|PATCH|HARNESS)" | cut -c1-260 | head -6
+  /verif/tools/trymut.sh /verif/seeded/$sid/patch.diff $prop | grep -E "^(VIOLATION|DONE|rc=|PATCH|HARNESS)" | cut -c1-260 | head -14
 done
